@@ -34,7 +34,7 @@ ASSUMPTIONS = ["a transmission may leave up to SEND_COLLECTION_TIMEOUT after it 
 FLOORS = {"quick": {"scenarios": 6000, "offers_matched": 30000, "stopoffers_matched": 3000, "find_answers_matched": 1500,
                     "queue_log_entries": 40000, "stops_at_instant_before": 300, "stops_at_instant_after": 300,
                     "stops_adjacent": 600, "stop_inside_answer_window": 150, "double_stop_calls": 300,
-                    "simple_service_stop_announce": 100, "stop_before_first_offer": 150, "restart_scenarios": 400,
+                    "simple_service_stop_announce": 100, "stop_before_first_offer": 150, "restart_scenarios": 400, "stacks_brought_up_through_create_endpoints_on_another_port": 1000,
                     "mesh_scenarios": 100, "mesh_offer_intervals_checked": 120, "mesh_stopped_intervals_checked": 24}}
 # system-level shards: the mesh workload of pv/mesh.py under this property's boundary monitors (reports of other monitors are dropped)
 MESH = {"want": ("offerlife",), "claim": ("mesh:offer-with-nonzero-ttl-queued-while", "mesh:stop-after-offering-queues", "mesh:stop-queues", "mesh:offer-content-differs", "mesh:live-offer-on-the-wire-after"),
@@ -203,6 +203,9 @@ def expectations(cfg, ninst, script, horizon, first_offers):
 
 
 # --------------------------------------------------------------------------------- execution
+_RUNS = [0]
+
+
 class Run:
     def __init__(self, cfg, ninst, script, seed):
         import ipaddress
@@ -220,7 +223,29 @@ class Run:
         # protocol-wide timings may say something else
         import dataclasses
         tm_proto = tm if (len(script) + ninst) % 2 else dataclasses.replace(tm, ANNOUNCE_TTL=7 if cfg["ttl"] != 7 else 9)
-        self.prot, self.tr = net.make_sd(self.h.loop, ("10.0.7.1", 30490), timings=tm_proto)
+        self.mc = net.MCAST
+        _RUNS[0] += 1
+        if _RUNS[0] % 4 == 3:
+            # the stack is brought up the way the tools do it: ServiceDiscoveryProtocol.create_endpoints(family, local address,
+            # group, port=...) - with the socket factory replaced by recording transports, on a port of the deployment's choice;
+            # the timings are assigned afterwards (the helper takes none).  "The multicast group" is then (group, that port)
+            import socket
+
+            class Stack(S.ServiceDiscoveryProtocol):
+                @classmethod
+                async def _create_endpoint(cls, loop, prot, family, local_addr, port, multicast_addr=None,
+                                           multicast_interface=None, ttl=1):
+                    return net.RecTransport(loop, (multicast_addr or local_addr, port))
+
+            self.mc = (net.MCAST[0], 30517)
+            self.tr, _tr_m, self.prot = self.h.loop.run_until_complete(
+                Stack.create_endpoints(socket.AF_INET, "10.0.7.1", self.mc[0], port=self.mc[1], loop=self.h.loop))
+            for f in dataclasses.fields(tm_proto):
+                setattr(self.prot.timings, f.name, getattr(tm_proto, f.name))
+            self.via_helper = True
+        else:
+            self.via_helper = False
+            self.prot, self.tr = net.make_sd(self.h.loop, ("10.0.7.1", 30490), timings=tm_proto)
         self.insts = []
         self.ref_opts = []
         import zlib
@@ -314,6 +339,12 @@ class Run:
         sent = None
         try:
             sent = net.decode_sent(self.tr.sent)
+            for m in sent:
+                # (the model speaks of net.MCAST: translate the configured group address, and keep any other one apart)
+                if m["dst"] == self.mc:
+                    m["dst"] = net.MCAST
+                elif m["dst"] == net.MCAST:
+                    m["dst"] = ("not-the-configured-group-address",) + tuple(net.MCAST)
         except refwire.RefError as exc:
             problems.append(("undecodable-transmission", repr(exc)))
         self.h.close()
@@ -323,6 +354,8 @@ class Run:
 def judge(ctx, cfg, ninst, script, horizon, seed, replay, tags=()):
     run = Run(cfg, ninst, script, seed)
     sent, problems = run.execute(horizon)
+    if run.via_helper:
+        ctx.count("stacks_brought_up_through_create_endpoints_on_another_port")
     ids0 = {(INSTS[k]["sid"], INSTS[k]["iid"], INSTS[k]["maj"]): k for k in range(ninst)}
     first_offers = {}
     for q in run.qlog:
